@@ -1,12 +1,15 @@
 /-
   C16 — modified UTF-7 is lossless and safe.  Property theorems only.
 
-  not yet proved: decode_eq_spec, decTransform_oneshot, transform_chunking
+  not yet proved: (nothing on the C16 target list; the encoder-side `encTransform` chunking was not a target)
 -/
 import GoImap.Lemmas.Utf7
 import GoImap.Lemmas.Utf7Round
 import GoImap.Lemmas.Utf7Safe
 import GoImap.Lemmas.Utf7Reject
+import GoImap.Lemmas.Utf7Bits
+import GoImap.Lemmas.Utf7SpecTop
+import GoImap.Lemmas.Utf7Chunk
 import GoImap.Spec.Utf7
 namespace GoImap.C16
 open GoImap.Utf7 GoImap.Utf7Spec GoImap.Utf7Lemmas
@@ -184,5 +187,116 @@ theorem rejects_pad_decode (pre seg post : BytesN) (h45 : ∀ c ∈ seg, c ≠ 4
 -- "&AOk=-"
 example : decode ([] ++ (38 :: ([65, 79, 107] ++ [61]) ++ 45 :: [])) = none :=
   rejects_pad_decode _ _ _ (by decide)
+
+/-! ### refinement to the RFC-style bit-stream specification -/
+
+/-- one shifted segment: Go's group-of-four base64 + UTF-16BE byte pairs is the bit-stream reading -/
+theorem decodeSeg_eq_spec (seg : BytesN) : decodeSeg seg = specSeg seg :=
+  (specSeg_eq_decodeSeg seg).symm
+
+/-- the mirror of the Go decoder computes exactly the specification decoder, on every input -/
+theorem decode_eq_spec (b : BytesN) : decode b = specDecode b :=
+  decode_eq_specDecode specSeg_eq_decodeSeg b
+
+example : specDecode [97, 38, 65, 79, 107, 45, 38, 45] = some [97, 233, 38] := by
+  rw [← decode_eq_spec]; decide
+
+/-! ### the streaming decoder -/
+
+/-- one final call with enough room for the output: everything is consumed and written -/
+theorem decTransform_oneshot_ok (cap : Nat) (src : BytesN) (cs : List Nat) (h : decode src = some cs)
+    (hcap : (cs.flatMap utf8enc).length ≤ cap) :
+    decTransform cap true true src =
+      ⟨(cs.flatMap utf8enc).length, src.length, .ok, cs.flatMap utf8enc, true⟩ := by
+  have := decT_eof_some cap src true none 0 0 [] cs h (by omega)
+  simpa [pendLen, decTransform] using this
+
+example : decTransform 3 true true [97, 38, 65, 79, 107, 45] = ⟨3, 6, .ok, [97, 195, 169], true⟩ :=
+  decTransform_oneshot_ok 3 _ [97, 233] (by decide) (by decide)
+
+/-- one final call on an input the one-shot decoder rejects, with ample room: ErrInvalidUTF7 -/
+theorem decTransform_oneshot_invalid (cap : Nat) (src : BytesN) (h : decode src = none)
+    (hcap : 2 * src.length ≤ cap) : (decTransform cap true true src).err = .invalid := by
+  have := decTransform_eof cap src true hcap
+  rw [show dec true none src = none from h] at this
+  exact this
+
+example : (decTransform 12 true true [97, 38, 65, 71, 69, 45]).err = .invalid :=
+  decTransform_oneshot_invalid 12 _ (by decide) (by decide)
+
+/-- one final call with ample room succeeds with output `o` exactly when the one-shot decoder
+    yields the scalars whose UTF-8 is `o` -/
+theorem decTransform_oneshot (cap : Nat) (src o : BytesN) (hcap : 2 * src.length ≤ cap) :
+    ((decTransform cap true true src).err = .ok ∧ (decTransform cap true true src).out = o) ↔
+      (decode src).map (·.flatMap utf8enc) = some o := by
+  have key := decTransform_eof cap src true hcap
+  unfold decode
+  cases hd : dec true none src with
+  | none => rw [hd] at key; simp only at key; simp [key]
+  | some cs => rw [hd] at key; simp only at key; simp [key]
+
+example : ((decTransform 12 true true [97, 38, 65, 79, 107, 45]).err = .ok ∧
+    (decTransform 12 true true [97, 38, 65, 79, 107, 45]).out = [97, 195, 169]) :=
+  (decTransform_oneshot 12 _ _ (by decide)).mpr (by decide)
+
+/-- chunking: a first call (not atEOF) that returns nil or ErrShortSrc, then a final call on the
+    unconsumed rest plus the next piece with the carried `ascii` flag, together produce exactly the
+    one-shot result on the concatenation; ErrInvalidUTF7 exactly when the one-shot decoder fails -/
+theorem transform_chunking (a b : BytesN) (cap1 cap2 : Nat)
+    (h1 : (decTransform cap1 false true a).err = .ok ∨ (decTransform cap1 false true a).err = .shortSrc)
+    (hcap : 2 * (a.length + b.length) ≤ cap2) :
+    let r1 := decTransform cap1 false true a
+    let r2 := decTransform cap2 true r1.ascii (a.drop r1.nSrc ++ b)
+    (r2.err = .invalid ↔ decode (a ++ b) = none) ∧
+    (decode (a ++ b)).map (·.flatMap utf8enc) =
+      (if r2.err = .ok then some (r1.out ++ r2.out) else none) := by
+  intro r1 r2
+  obtain ⟨cs1, ho, hn, hdec⟩ := decTransform_chunk cap1 a h1
+  have hlen : 2 * (a.drop r1.nSrc ++ b).length ≤ cap2 := by
+    simp only [List.length_append, List.length_drop]; omega
+  have key := decTransform_eof cap2 (a.drop r1.nSrc ++ b) r1.ascii hlen
+  rw [hdec b]
+  cases hd : dec r1.ascii none (a.drop r1.nSrc ++ b) with
+  | none =>
+    rw [hd] at key
+    have key' : r2.err = .invalid := key
+    simp [key']
+  | some cs2 =>
+    rw [hd] at key
+    have key' : r2 = ⟨(cs2.flatMap utf8enc).length, (a.drop r1.nSrc ++ b).length, .ok,
+      cs2.flatMap utf8enc, true⟩ := key
+    have ho' : r1.out = cs1.flatMap utf8enc := ho
+    simp [key', ho']
+
+/-- the same with the tight capacity for the accepting case -/
+theorem transform_chunking_tight (a b : BytesN) (cap1 cap2 : Nat) (cs : List Nat)
+    (h1 : (decTransform cap1 false true a).err = .ok ∨ (decTransform cap1 false true a).err = .shortSrc)
+    (hd : decode (a ++ b) = some cs)
+    (hcap : (cs.flatMap utf8enc).length ≤ (decTransform cap1 false true a).out.length + cap2) :
+    let r1 := decTransform cap1 false true a
+    let r2 := decTransform cap2 true r1.ascii (a.drop r1.nSrc ++ b)
+    r2.err = .ok ∧ r1.out ++ r2.out = cs.flatMap utf8enc := by
+  intro r1 r2
+  obtain ⟨cs1, ho, hn, hdec⟩ := decTransform_chunk cap1 a h1
+  have ho' : r1.out = cs1.flatMap utf8enc := ho
+  rw [hdec b] at hd
+  obtain ⟨cs2, h2, rfl⟩ := Option.map_eq_some_iff.mp hd
+  rw [ho, List.flatMap_append, List.length_append] at hcap
+  have key : r2 = _ := decT_eof_some cap2 (a.drop r1.nSrc ++ b) r1.ascii none 0 0 [] cs2 h2 (by omega)
+  simp [key, ho']
+
+-- "a&AO" + "k-b": the first call stops with ErrShortSrc after "a", the second finishes
+example :
+    let r1 := decTransform 8 false true [97, 38, 65, 79]
+    let r2 := decTransform 16 true r1.ascii ([97, 38, 65, 79].drop r1.nSrc ++ [107, 45, 98])
+    r1.err = .shortSrc ∧ r1.nSrc = 1 ∧ r2.err = .ok ∧ r1.out ++ r2.out = [97, 195, 169, 98] := by decide
+example : (decode ([97, 38, 65, 79] ++ [107, 45, 98])).map (·.flatMap utf8enc) = some [97, 195, 169, 98] := by
+  have := (transform_chunking [97, 38, 65, 79] [107, 45, 98] 8 16 (by decide) (by decide)).2
+  rw [this]; decide
+-- "&AOk-" + "&AOk-": adjacent shifts across the chunk boundary are still rejected
+example : (decTransform 20 true (decTransform 8 false true [38, 65, 79, 107, 45]).ascii
+    ([38, 65, 79, 107, 45].drop (decTransform 8 false true [38, 65, 79, 107, 45]).nSrc ++ [38, 65, 79, 107, 45])).err
+      = .invalid :=
+  (transform_chunking [38, 65, 79, 107, 45] [38, 65, 79, 107, 45] 8 20 (by decide) (by decide)).1.mpr (by decide)
 
 end GoImap.C16
